@@ -161,7 +161,7 @@ static void one_pattern(const char *code, long nl)
 	print(code, pat);
 	if (rr_nullable_star(&a, a.root))
 		return;
-	nv_guard(120, "c14-hang", "pattern=\"%s\"", nv_esc(pat, -1));
+	nv_guard(800, "c14-hang", "pattern=\"%s\"", nv_esc(pat, -1));
 	for (ic = 0; ic < 2; ic++) {
 		char setcmd[32];
 		snprintf(setcmd, sizeof(setcmd), "se %sic", ic ? "" : "no");
